@@ -122,6 +122,11 @@ let judge_conn ins outs =
          let nontrivial = List.length sv >= 2 in
          if not (c01_req_ok es o) then begin
            match first_bad req_preserved_e sv o.origin_saw 0 with
+           | Some (i, Some (_, w)) when i > 0 && req_preserved_e (List.nth sv (i - 1)) w ->
+               (* what arrived in place of request i is request i-1 once more *)
+               VPropfail ("one_request_per_exchange",
+                          Printf.sprintf "exchange=%d reached the origin a second time (origin-saw=%d want=%d)"
+                            (i - 1) (List.length o.origin_saw) (List.length sv))
            | Some (i, Some (e, w)) ->
                let r = e.rq in
                let what =
@@ -153,7 +158,9 @@ let judge_conn ins outs =
            VPropfail ("keepalive", Printf.sprintf "after-response=%d connection=%s want-closed=%b"
                         (List.length o.client_got) p.fin (List.exists wants_close es))
          else if p.fin <> "open" && p.fin <> "closed" then VPropfail ("client_stuck", p.fin)
-         else if p.oerr <> [] then VDisagree ("origin-anomaly:" ^ String.concat "," p.oerr)
+         else if p.oerr <> [] then
+           (* the proxy sent the origin bytes that are not a complete request (e.g. a head that announces a body and no body) *)
+           VPropfail ("origin_got_malformed_request", String.concat "," (List.map (fun h -> String.escaped (string_of_chars (hexs h))) p.oerr))
          else if not (c01_ok es o) then VDisagree "oracle-inconsistent"
          else begin
            let m = run es in
